@@ -211,10 +211,9 @@ class QUSO(BO, QUSOMatrix):
         """
         if not is_solution_spin(solution, spin):
             solution = boolean_to_spin(solution)
-        return {
-            self._reverse_mapping[i]: solution[i]
-            for i in range(self.num_binary_variables)
-        }
+        # every integer label the mapping uses (a mapping declared with
+        # set_mapping may have gaps)
+        return {v: solution[i] for i, v in self._reverse_mapping.items()}
 
     @staticmethod
     def _check_key_valid(key):
